@@ -27,7 +27,7 @@ def run(rep):
              ('sqlparse.filters.tokens._CaseFilter.process', 'KeywordCaseFilter'),
              ('sqlparse.filters.tokens.IdentifierCaseFilter.process', None),
              ('sqlparse.filters.tokens.TruncateStringFilter.process', None)] + tc.NAV_FUNCS + \
-            [(tc.GT, 'new group'), (tc.GT, 'extend flag')] + tc.MATCHER_FUNCS
+            [(tc.GT, 'new group'), (tc.GT, 'extend flag')] + tc.MATCHER_FUNCS + tc.PASS_FUNCS
     return generic.run_generic(
         rep, funcs, structural=[validation_dominates, rec],
         assumptions=['option values range over None | bool | int | float (finite, inf, nan) | str | other object; objects '
